@@ -1,4 +1,382 @@
+// C09: malformed stored input gives an error Status, never undefined
+// behaviour. A stored object (export of a small menu object) is subjected to
+// explicit storage faults (SimStore) or stream faults (SimStreambuf, OBJ) and
+// imported; the result is driven through a consuming program.
+//
+// job c09:    obj=<menu id> stale=<menu id> (faults=<list> | from=<i> to=<j>) precision=64|32
+// job c09obj: obj=<menu id> kind=eof|error|flip|short|crlf from=<i> to=<j>
+// job c09count: number of enumerated single faults for (obj, stale)
+#include <set>
+#include <sstream>
+
 #include "jobs.h"
+#include "ops.h"
+#include "oracles.h"
+#include "store.h"
+
 namespace vh {
-void register_c09() {}
+namespace {
+
+const char* kMenu[] = {
+    /*0*/ "tet",
+    /*1*/ "cube:500,500,500,1;setprops:0,2,1",
+    /*2*/ "cube:500,500,500,1;sphere:300,2;trans:1,700,600,550;add:0,2",
+    /*3*/ "cube:500,500,500,1;sphere:300,2;trans:1,700,600,550;sub:0,2",
+    /*4*/ "cube:300,300,300,0;trans:0,900,500,500;rot:0,100,200,300;add:1,2;mirror:3,500,200,100;add:3,4",
+    /*5*/ "cube:500,500,500,1;smoothout:0,300,500",
+    /*6*/ "cube:500,500,500,1;calcnorm:0,0,900",
+    /*7*/ "sphere:500,2;cube:100,100,100,1;sub:0,1;smoothout:2,700,300;setprops:3,1,2",
+    /*8*/ "tet;setprops:0,3,0;calcnorm:1,0,100;refine:2,0",
+};
+const int kMenuSize = sizeof(kMenu) / sizeof(kMenu[0]);
+
+Manifold menu_object(int id) {
+  Env e;
+  e.capM = 64;
+  for (auto& op : parse_program(kMenu[((id % kMenuSize) + kMenuSize) % kMenuSize])) exec(e, op);
+  return e.M.back();
+}
+
+std::vector<Fault> enumerate_faults(const StoredMesh& s) {
+  std::vector<Fault> out;
+  const int bits64[] = {0, 1, 7, 20, 31, 32, 51, 52, 55, 62, 63};
+  for (int fi = 0; fi < F_COUNT; fi++) {
+    const size_t n = s.elems(fi), es = kElemSize[fi];
+    const size_t stepE = n <= 48 ? 1 : n / 48 + 1;
+    for (size_t e = 0; e < n; e += stepE)
+      for (int b : bits64)
+        if ((size_t)b < es * 8) out.push_back({"flip", fi, (int64_t)e, b, 0});
+    for (size_t k = 0; k < n; k += stepE) out.push_back({"truncate", fi, (int64_t)k, 0, 0});
+    if (n > 0) {
+      out.push_back({"truncate", fi, (int64_t)n - 1, 0, 0});
+      out.push_back({"truncbytes", fi, (int64_t)(n * es - 1), 0, 0});
+      out.push_back({"truncbytes", fi, (int64_t)(n * es / 2 + 1), 0, 0});
+      out.push_back({"lose", fi, 0, 0, 0});
+      out.push_back({"mix", fi, 0, 0, 0});
+    }
+    for (size_t k = 0; k < n; k += stepE) {
+      out.push_back({"tear", fi, (int64_t)k, 0, 0});
+      out.push_back({"tear", fi, (int64_t)k, 1, 0});
+    }
+    for (size_t e = 0; e < n; e += std::max<size_t>(1, n / 6)) {
+      out.push_back({"dup", fi, (int64_t)e, 0, 0});
+      out.push_back({"dup", fi, (int64_t)e, 2, 0});
+    }
+    for (size_t e = 0; e < n; e += std::max<size_t>(1, n / 12))
+      for (const char* k : {"nan", "inf", "neg", "huge"}) out.push_back({k, fi, (int64_t)e, 0, 0});
+    if (es == 8 && fi != F_VP && fi != F_RT && fi != F_HT)
+      for (size_t e = 0; e < n; e += std::max<size_t>(1, n / 8))
+        for (int64_t v : {(int64_t)0, (int64_t)s.elems(F_VP) / (int64_t)std::max<uint64_t>(1, s.numProp) - 1,
+                          (int64_t)s.elems(F_VP) / (int64_t)std::max<uint64_t>(1, s.numProp), (int64_t)s.elems(F_TV), (int64_t)s.elems(F_TV) + 3,
+                          (int64_t)1 << 31, ((int64_t)1 << 32) + 1})
+          out.push_back({"setidx", fi, (int64_t)e, v, 0});
+  }
+  for (int64_t v : {0, 1, 2, 4, 5, 7, 1000, -1}) out.push_back({"numprop", 0, v == -1 ? (int64_t)s.numProp + 1 : v, 0, 0});
+  out.push_back({"numprop", 0, (int64_t)s.numProp - 1, 0, 0});
+  for (int64_t v = 0; v < 6; v++) out.push_back({"tol", 0, v, 0, 0});
+  return out;
+}
+
+struct Verdict {
+  std::string clause;  // "" ok
+  int status = 0;
+};
+
+// The consuming program. Every result must report the error (sticky); for a
+// usable import nothing may crash and everything must satisfy C01.
+// `tolerated`: clauses that the *unfaulted* object already shows (those are
+// C01's findings, not consequences of the fault); `collect`: gather instead of
+// stopping at the first.
+Verdict consume(const Manifold& m, const std::set<std::string>* tolerated = nullptr, std::set<std::string>* collect = nullptr) {
+  Verdict v;
+  v.status = (int)m.Status();
+  MeshGL64 g = m.GetMeshGL64();
+  std::string cl = check_manifold_invariant(m, g);
+  if (!cl.empty()) {
+    v.clause = "import_result:" + cl;
+    return v;
+  }
+  const Manifold cube = Manifold::Cube(vec3(0.8), true).Translate(vec3(0.1, 0.05, 0.02));
+  const auto err = m.Status();
+  const bool bad = err != Manifold::Error::NoError;
+  std::vector<std::pair<const char*, Manifold>> outs;
+  outs.push_back({"add", m + cube});
+  outs.push_back({"sub_rev", cube - m});
+  outs.push_back({"int", m ^ cube});
+  outs.push_back({"translate", m.Translate(vec3(1, 2, 3))});
+  outs.push_back({"rotate", m.Rotate(10, 20, 30)});
+  outs.push_back({"refine", m.Refine(2)});
+  outs.push_back({"refinelen", m.RefineToLength(0.5)});
+  outs.push_back({"hull", m.Hull()});
+  outs.push_back({"hullset", Manifold::Hull(std::vector<Manifold>{m, cube})});
+  outs.push_back({"setprops", m.SetProperties(2, [](double* n, vec3 p, const double*) { n[0] = p.x; n[1] = p.y; })});
+  outs.push_back({"calcnorm", m.CalculateNormals(0, 60)});
+  outs.push_back({"calccurv", m.CalculateCurvature(0, 1)});
+  outs.push_back({"smoothout", m.SmoothOut(60, 0.5)});
+  outs.push_back({"simplify", m.Simplify(0.01)});
+  outs.push_back({"settol", m.SetTolerance(0.01)});
+  outs.push_back({"asorig", m.AsOriginal()});
+  outs.push_back({"warp", m.Warp([](vec3& p) { p.x += 0.1 * p.y; })});
+  outs.push_back({"mirror", m.Mirror(vec3(1, 1, 0))});
+  outs.push_back({"trim", m.TrimByPlane(vec3(0, 0, 1), 0.0)});
+  outs.push_back({"batch", Manifold::BatchBoolean({m, cube, cube.Translate(vec3(0.3, 0, 0))}, OpType::Add)});
+  // (export -> re-import is not in this list: MeshGL has no status field, an
+  // errored object exports as an empty mesh, which is a valid empty solid.)
+  {
+    auto pr = m.Split(cube);
+    outs.push_back({"split1", pr.first});
+    outs.push_back({"split2", pr.second});
+    auto pp = m.SplitByPlane(vec3(1, 0, 0), 0.0);
+    outs.push_back({"splitplane1", pp.first});
+  }
+  if (m.NumTri() <= 64) {
+    outs.push_back({"minksum", m.MinkowskiSum(Manifold::Cube(vec3(0.1), true))});
+    outs.push_back({"minkdiff", m.MinkowskiDifference(Manifold::Cube(vec3(0.1), true))});
+  }
+  if (bad) {
+    auto parts = m.Decompose();
+    for (auto& p : parts) outs.push_back({"decompose", p});
+  }
+  for (auto& kv : outs) {
+    const Manifold& r = kv.second;
+    if (bad) {
+      if (r.Status() == Manifold::Error::NoError) {
+        v.clause = std::string("error_lost_by:") + kv.first;
+        return v;
+      }
+      if (r.Status() != err) {
+        v.clause = std::string("error_changed_by:") + kv.first + ":" + std::to_string((int)r.Status());
+        return v;
+      }
+      if (!r.IsEmpty() || r.NumTri() != 0) {
+        v.clause = std::string("error_result_not_empty:") + kv.first;
+        return v;
+      }
+    } else {
+      MeshGL64 gr = r.GetMeshGL64();
+      std::string c2 = check_manifold_invariant(r, gr);
+      if (!c2.empty()) {
+        std::string full = std::string("after_") + kv.first + ":" + c2;
+        if (collect) {
+          collect->insert(full);
+        } else if (!tolerated || !tolerated->count(full)) {
+          v.clause = full;
+          return v;
+        }
+      }
+    }
+  }
+  // queries must be total as well
+  (void)m.Volume();
+  (void)m.SurfaceArea();
+  (void)m.BoundingBox();
+  (void)m.Genus();
+  (void)m.NumDegenerateTris();
+  (void)m.Slice(0.0);
+  (void)m.Project();
+  (void)m.MinGap(cube, 1.0);
+  (void)m.RayCast(vec3(-5, 0.01, 0.02), vec3(5, 0.01, 0.02));
+  (void)m.WindingNumber({vec3(0.01, 0.02, 0.03)});
+  return v;
+}
+
+template <class MeshT>
+MeshT narrow(const MeshGL64& g);
+template <>
+MeshGL64 narrow<MeshGL64>(const MeshGL64& g) {
+  return g;
+}
+template <>
+MeshGL narrow<MeshGL>(const MeshGL64& g) {
+  MeshGL o;
+  o.numProp = (uint32_t)g.numProp;
+  o.tolerance = (float)g.tolerance;
+  o.vertProperties.assign(g.vertProperties.begin(), g.vertProperties.end());
+  o.triVerts.assign(g.triVerts.begin(), g.triVerts.end());
+  o.mergeFromVert.assign(g.mergeFromVert.begin(), g.mergeFromVert.end());
+  o.mergeToVert.assign(g.mergeToVert.begin(), g.mergeToVert.end());
+  o.runIndex.assign(g.runIndex.begin(), g.runIndex.end());
+  o.runOriginalID = g.runOriginalID;
+  o.runTransform.assign(g.runTransform.begin(), g.runTransform.end());
+  o.runFlags = g.runFlags;
+  o.faceID.assign(g.faceID.begin(), g.faceID.end());
+  o.halfedgeTangent.assign(g.halfedgeTangent.begin(), g.halfedgeTangent.end());
+  return o;
+}
+
+std::string job_c09(const Args& a) {
+  SimSetup s = sim_setup(a);
+  JArr viol;
+  std::map<std::string, int> fired, statuses;
+  long tested = 0, notApplied = 0, usable = 0, rejected = 0;
+  size_t total = 0;
+  SimOutcome out = run_simulated(s, [&]() {
+    const StoredMesh base = SimStore::store(menu_object((int)a.i("obj", 0)).GetMeshGL64());
+    const StoredMesh stale = SimStore::store(menu_object((int)a.i("stale", 1)).GetMeshGL64());
+    std::set<std::string> tolerated;
+    {
+      Manifold clean(SimStore::load(base));
+      consume(clean, nullptr, &tolerated);
+    }
+    std::vector<std::vector<Fault>> cases;
+    if (a.has("faults")) {
+      cases.push_back(parse_faults(a.s("faults")));
+      total = 1;
+    } else {
+      auto all = enumerate_faults(base);
+      total = all.size();
+      size_t from = (size_t)a.u("from", 0), to = std::min<size_t>(all.size(), (size_t)a.u("to", all.size()));
+      for (size_t i = from; i < to; i++) cases.push_back({all[i]});
+    }
+    const bool p32 = a.i("precision", 64) == 32;
+    for (auto& fl : cases) {
+      StoredMesh sm = base;
+      bool any = false;
+      std::string text;
+      for (auto& f : fl) {
+        bool ok = SimStore::apply(sm, f, &stale);
+        any = any || ok;
+        if (ok) fired[f.kind]++;
+        text += (text.empty() ? "" : ";") + f.text();
+      }
+      if (!any) {
+        notApplied++;
+        continue;
+      }
+      tested++;
+      MeshGL64 g = SimStore::load(sm);
+      Manifold m = p32 ? Manifold(narrow<MeshGL>(g)) : Manifold(g);
+      Verdict v = consume(m, &tolerated);
+      statuses[std::to_string(v.status)]++;
+      if (v.status == 0)
+        usable++;
+      else
+        rejected++;
+      if (!v.clause.empty()) viol.raw(JObj().str("faults", text).str("clause", v.clause).i64("status", v.status).done());
+    }
+  });
+  if (out.exception) viol.raw(JObj().str("faults", a.s("faults", "range")).str("clause", "exception:" + out.what).i64("status", -1).done());
+  JObj f, st;
+  for (auto& kv : fired) f.i64(kv.first, kv.second);
+  for (auto& kv : statuses) st.i64(kv.first, kv.second);
+  JObj j;
+  j.i64("tested", tested).i64("not_applied", notApplied).i64("usable", usable).i64("rejected", rejected).u64("total", total);
+  j.raw("fired", f.done()).raw("statuses", st.done()).raw("viol", viol.done()).raw("sim", outcome_json(out));
+  return j.done();
+}
+
+// ---------------------------------------------------------------- OBJ streams
+std::string job_c09obj(const Args& a) {
+  SimSetup s = sim_setup(a);
+  JArr viol;
+  long tested = 0, usable = 0, rejected = 0;
+  size_t total = 0;
+  uint64_t shortReads = 0, eofFired = 0, errFired = 0;
+  const std::string kind = a.s("kind", "eof");
+  SimOutcome out = run_simulated(s, [&]() {
+    Manifold src = menu_object((int)a.i("obj", 0));
+    std::string text;
+    {
+      SimStreambuf wb;
+      wb.shortOps = a.i("shortw", 0);
+      wb.rng = Rng(a.u("ioseed", 1));
+      std::ostream os(&wb);
+      src.WriteOBJ(os);
+      text = wb.data;
+    }
+    if (a.has("text")) {  // hand-written adversarial texts
+      int which = (int)a.i("text");
+      const char* T[] = {"v 0 0 0\nv 1 0 0\nv 0 1 0\nv 0 0 1\nf 99999999999999 1 2\nf 1 2 3\nf 1 3 4\nf 2 4 3\n",
+                         "v 0 0 0\nv 1 0 0\nv 0 1 0\nv 0 0 1\nf 1 3 2\nf 1 2 4\nf 1 4 3\nf 2 3 4\n",
+                         "v 1e400 0 0\nv 1 0 0\nv 0 1 0\nv 0 0 1\nf 1 3 2\nf 1 2 4\nf 1 4 3\nf 2 3 4\n",
+                         "f 0 0 0\nf 1 2 3\n", "v nan nan nan\n", "# tolerance = 1e999\nv 0 0 0\n", "f 1 2 3\nf 1 2 3\nf 1 2 3\nf 3 2 1\n"};
+      text = T[((which % 7) + 7) % 7];
+    }
+    total = text.size();
+    int plainStatus;
+    size_t plainTri;
+    {
+      std::istringstream is(text);
+      Manifold pm = Manifold::ReadOBJ(is);
+      plainStatus = (int)pm.Status();
+      plainTri = pm.NumTri();
+    }
+    long from = a.i("from", 0), to = std::min<long>((long)text.size() + 1, a.i("to", (long)text.size() + 1));
+    if (kind == "short" || kind == "crlf" || kind == "plain") {
+      from = 0;
+      to = 1;
+    }
+    for (long k = from; k < to; k++) {
+      const int nbits = kind == "flip" ? 8 : 1;
+      for (int bit = 0; bit < nbits; bit++) {
+        SimStreambuf rb;
+        rb.data = text;
+        rb.rng = Rng(a.u("ioseed", 1) + k);
+        if (kind == "eof") rb.eofAt = k;
+        if (kind == "error") rb.errorAt = k;
+        if (kind == "flip" && k < (long)rb.data.size()) rb.data[k] ^= (char)(1 << bit);
+        if (kind == "short") rb.shortOps = true;
+        if (kind == "crlf") {
+          std::string t2;
+          for (char c : text) {
+            if (c == '\n') t2 += '\r';
+            t2 += c;
+          }
+          rb.data = t2;
+        }
+        std::istream is(&rb);
+        is.exceptions(std::ios::goodbit);
+        Manifold m = Manifold::ReadOBJ(is);
+        tested++;
+        shortReads += rb.shortReads;
+        eofFired += rb.eofFired;
+        errFired += rb.errFired;
+        MeshGL64 g = m.GetMeshGL64();
+        std::string cl = check_manifold_invariant(m, g);
+        if (m.Status() == Manifold::Error::NoError)
+          usable++;
+        else
+          rejected++;
+        if (!cl.empty()) viol.raw(JObj().str("faults", kind + "@" + std::to_string(k) + "b" + std::to_string(bit)).str("clause", "import_result:" + cl).i64("status", (int)m.Status()).done());
+        if ((kind == "short" || kind == "crlf" || kind == "plain") && !a.has("text")) {
+          // fault-free behaviours must give what a plain in-memory read gives
+          if ((int)m.Status() != plainStatus || m.NumTri() != plainTri)
+            viol.raw(JObj().str("faults", kind).str("clause", "legal_stream_behaviour_breaks_roundtrip").i64("status", (int)m.Status()).done());
+        }
+        // a consuming op on whatever came back
+        Manifold r = m + Manifold::Cube();
+        if (m.Status() != Manifold::Error::NoError && r.Status() != m.Status())
+          viol.raw(JObj().str("faults", kind + "@" + std::to_string(k)).str("clause", "error_lost_by:add").i64("status", (int)m.Status()).done());
+      }
+    }
+  });
+  if (out.exception) viol.raw(JObj().str("faults", kind).str("clause", "exception:" + out.what).i64("status", -1).done());
+  JObj j;
+  j.i64("tested", tested).i64("usable", usable).i64("rejected", rejected).u64("total", total);
+  j.u64("short_reads", shortReads).u64("eof_fired", eofFired).u64("err_fired", errFired);
+  j.raw("viol", viol.done()).raw("sim", outcome_json(out));
+  return j.done();
+}
+
+std::string job_c09count(const Args& a) {
+  size_t n = 0, bytes = 0;
+  SimSetup s = sim_setup(a);
+  run_simulated(s, [&]() {
+    Manifold m = menu_object((int)a.i("obj", 0));
+    n = enumerate_faults(SimStore::store(m.GetMeshGL64())).size();
+    std::stringstream ss;
+    m.WriteOBJ(ss);
+    bytes = ss.str().size();
+  });
+  return JObj().u64("faults", n).u64("obj_bytes", bytes).i64("menu", kMenuSize).done();
+}
+
+}  // namespace
+
+void register_c09() {
+  registry()["c09"] = job_c09;
+  registry()["c09obj"] = job_c09obj;
+  registry()["c09count"] = job_c09count;
+}
+
 }  // namespace vh
